@@ -135,13 +135,13 @@ def check_module(m, expect):
     return v, facts
 
 
-def expand_and_audit(name, modules, expects, features, log=None):
+def expand_and_audit(name, modules, expects, features, log=None, debug_assertions=True):
     """modules: [(mod_name, text)]; expects: {type_name: {...}}. Returns (event_modules, error)"""
     d = os.path.join(WORK, name)
     feats = ", ".join('"%s"' % f for f in features)
     write_if_changed(os.path.join(d, "Cargo.toml"),
                      '[package]\nname = "auditee"\nversion = "0.1.0"\nedition = "2021"\n\n[dependencies]\nnutype = { path = "%s/nutype", features = [%s] }\n'
-                     'serde = { version = "1.0.150", features = ["derive"] }\narbitrary = "1.3.0"\nregex = "1"\n\n[workspace]\n\n[profile.dev]\ndebug = 0\n' % (REPO, feats))
+                     'serde = { version = "1.0.150", features = ["derive"] }\narbitrary = "1.3.0"\nregex = "1"\n\n[workspace]\n\n[profile.dev]\ndebug = 0\n%s' % (REPO, feats, "" if debug_assertions else "debug-assertions = false\n\n[profile.dev.build-override]\ndebug-assertions = false\n"))
     if not os.path.exists(os.path.join(d, "Cargo.lock")):
         import shutil
         shutil.copy(os.path.join(REPO, "Cargo.lock"), os.path.join(d, "Cargo.lock"))
